@@ -83,7 +83,7 @@ Definition arrays_zero_length (m : key -> mval) : key -> mval :=
 
 Lemma example_delta :
   mem_wf particle_size table example_a /\ mem_wf particle_size table (arrays_zero_length example_b) /\
-  absent_normal table (arrays_zero_length example_b) /\ fixed_kept table example_a (arrays_zero_length example_b) /\
+  absent_normal table (arrays_zero_length example_b) /\
   In (mkfield 104 []) (delta (flat_map (wdesc particle_size example_a) (live table))
                              (flat_map (wdesc particle_size (arrays_zero_length example_b)) (live table))) /\
   List.length (delta (flat_map (wdesc particle_size example_a) (live table))
@@ -92,8 +92,7 @@ Proof.
   assert (A : forallb (mem_okb particle_size example_a) (live table) = true) by (vm_compute; reflexivity).
   assert (B : forallb (mem_okb particle_size (arrays_zero_length example_b)) (live table) = true) by (vm_compute; reflexivity).
   assert (C : forallb (absent_okb (arrays_zero_length example_b)) (live table) = true) by (vm_compute; reflexivity).
-  assert (D : forallb (fixed_keptb example_a (arrays_zero_length example_b)) (live table) = true) by (vm_compute; reflexivity).
-  rewrite forallb_forall in A, B, C, D.
-  split; [exact A|]. split; [exact B|]. split; [exact C|]. split; [exact D|].
+  rewrite forallb_forall in A, B, C.
+  split; [exact A|]. split; [exact B|]. split; [exact C|].
   split; vm_compute; auto.
 Qed.
